@@ -95,6 +95,9 @@ let rec run_case (kind : string) (body : sexp list) : string * string =
       let off = zarg (List.nth body 1) in
       let r = "(req " ^ string_of_int (int_of_z (remaining off Z0)) ^ ")" in
       (r, r)
+  | "subalg" ->
+      let h = List.map cop_of (args (List.nth body 1)) in
+      (show_cobs (crun cstate0 h), "UNSPECIFIED")
   | k -> failwith ("unknown case kind " ^ k)
 
 let gev_of (s : sexp) : gev =
@@ -164,7 +167,9 @@ let oracle (kind : string) (body : sexp list) (impl : string) : string option =
         | List [Atom "m"; j] -> TMark (narg j)
         | _ -> failwith "bad tout" in
       let out = (match parse ("(" ^ impl ^ ")") with List l -> List.map tout_of l | _ -> []) in
-      if timed_ok o ls out then Some "ok"
+      if (match o with TRaw -> false | _ -> not (closed_sound_ok out))
+      then Some "reject:C17 a delivery, or is_closed() = false, after is_closed() had answered true"
+      else if timed_ok o ls out then Some "ok"
       else Some (match o with
                  | TRaw -> "reject:C19 (a task ran twice, early, out of sequence, after its handle was unsubscribed, or a handle reported closed too early)"
                  | TDelay _ | TObserveOn | TDelaySubscription _ | TSubscribeOn ->
@@ -172,6 +177,21 @@ let oracle (kind : string) (body : sexp list) (impl : string) : string option =
                  | TInterval _ | TIntervalAt _ | TTimer _ ->
                      "reject:C08/C02 (not the consecutive integers / the single item, too early, or after unsubscribe)"
                  | _ -> "reject:C09/C02 (an item that is not an input item in input order exactly once, an empty or oversized buffer, lost items on completion, or a delivery after a terminal or after unsubscribe)")
+  | "subalg" ->
+      if String.length impl >= 5 && String.sub impl 0 5 = "PANIC" then Some "reject:panic" else
+      let h = List.map cop_of (args (List.nth body 1)) in
+      let obs = (match parse ("(" ^ impl ^ ")") with
+                 | List l -> List.map (function List [Atom "k"; k] -> CKilled (narg k)
+                                               | List [Atom "rb"; Atom "#t"] -> CRet true
+                                               | List [Atom "rb"; Atom "#f"] -> CRet false
+                                               | _ -> failwith "bad cobs") l
+                 | _ -> []) in
+      (match alg_ok h obs with
+       | O -> Some "ok"
+       | S O -> Some "reject:C17 is_closed() answered true while a leaf it holds was still alive"
+       | S (S O) -> Some "reject:C17 a leaf appended to an unsubscribed composite (or held by an unsubscribed subscription) was left running"
+       | S (S (S O)) -> Some "known:reopened is_closed() answered true and later false (a composite that was never unsubscribed re-opened by append)"
+       | _ -> Some "reject:C17 is_closed() answered true and later false")
   | _ -> None
 
 let () =
@@ -200,7 +220,7 @@ let () =
              Buffer.add_string out (id ^ " M " ^ m ^ "\n");
              Buffer.add_string out (id ^ " S " ^ s ^ "\n");
              (match (try oracle kind body m with _ -> Some "reject:unparsable") with
-              | Some v when v <> "ok" -> Buffer.add_string out (id ^ " X " ^ v ^ "\n")
+              | Some v when v <> "ok" && not (String.length v >= 6 && String.sub v 0 6 = "known:") -> Buffer.add_string out (id ^ " X " ^ v ^ "\n")
               | _ -> ());
              (match Hashtbl.find_opt impl_tbl id with
               | Some impl ->
